@@ -228,24 +228,151 @@ var ruleUnmarshalErr = &Rule{
 		roots := p.unmarshalRoots()
 		out.Counts["unmarshal_roots"] = len(roots)
 		out.Floors["unmarshal_roots"] = 5
+		// parsed: the error result of calls in fn that stand for the parse:
+		// time.Parse itself, or a helper of the package whose own nil-error
+		// returns all lie where such an error is nil
+		// (`tim, err := parseQuotedJSON(data, layout)`)
+		var parseErrs func(fn *ssa.Function, depth int) []ssa.Value
+		var guardsParse func(h *ssa.Function, idx, depth int) bool
+		guardsParse = func(h *ssa.Function, idx, depth int) bool {
+			if h == nil || h.Blocks == nil || !inModule(h) || depth > 3 {
+				return false
+			}
+			evs := parseErrs(h, depth+1)
+			n := 0
+			for _, r := range returnsOf(h) {
+				if idx >= len(r.Results) {
+					continue
+				}
+				if rv := stripConv(r.Results[idx]); !isNilConst(rv) {
+					// the error of a helper that guards the parse itself,
+					// handed on (`return parseUnquoted(…)`), or a constructed one
+					if c2, i2 := callOf(rv); c2 != nil && !c2.Call.IsInvoke() && c2.Call.StaticCallee() != h && guardsParse(c2.Call.StaticCallee(), i2, depth+1) {
+						n++
+						continue
+					}
+					if sh := p.shapeOf(rv); sh.Kind == "errorf" {
+						continue
+					}
+					return false
+				}
+				n++
+				ok := false
+				for _, ev := range evs {
+					if isNil, _ := nilFact(factsAt(r.Instr.Block()), ev); isNil {
+						ok = true
+					}
+				}
+				if !ok {
+					return false
+				}
+			}
+			return n > 0
+		}
+		parseErrs = func(fn *ssa.Function, depth int) []ssa.Value {
+			var out []ssa.Value
+			for _, b := range fn.Blocks {
+				for _, ins := range b.Instrs {
+					c, ok := ins.(*ssa.Call)
+					if !ok || c.Call.IsInvoke() {
+						continue
+					}
+					if calleeQualified(&c.Call) == "time.Parse" {
+						if ev := extractOf(c, 1); ev != nil {
+							out = append(out, ev)
+						}
+						continue
+					}
+					h := c.Call.StaticCallee()
+					if h == nil || !inModule(h) || h == fn || !lastIsError(h.Signature) {
+						continue
+					}
+					li := h.Signature.Results().Len() - 1
+					if guardsParse(h, li, depth) {
+						var ev ssa.Value
+						if li == 0 {
+							ev = c
+						} else {
+							ev = extractOf(c, li)
+						}
+						if ev != nil {
+							out = append(out, ev)
+						}
+					}
+				}
+			}
+			return out
+		}
+		// wraps: every non-nil value of the error v is built with %w of ErrSQLType
+		var wraps func(v ssa.Value, depth int) (ok, mayErr bool)
+		wraps = func(v ssa.Value, depth int) (bool, bool) {
+			v = stripConv(v)
+			if depth > 4 {
+				return false, false
+			}
+			if isNilConst(v) {
+				return true, false
+			}
+			if sh := p.shapeOf(v); sh.Kind == "errorf" && len(sh.Sentinels) > 0 && sh.Sentinels[0] == "types.ErrSQLType" {
+				return true, true
+			}
+			if ph, isPhi := v.(*ssa.Phi); isPhi {
+				all, some := true, false
+				for _, e := range ph.Edges {
+					o, m := wraps(e, depth+1)
+					all, some = all && o, some || m
+				}
+				return all, some
+			}
+			var c *ssa.Call
+			idx := 0
+			if ex, isEx := v.(*ssa.Extract); isEx {
+				c, _ = ex.Tuple.(*ssa.Call)
+				idx = ex.Index
+			} else if cc, isCall := v.(*ssa.Call); isCall {
+				c = cc
+			}
+			if c == nil || c.Call.IsInvoke() {
+				return false, false
+			}
+			h := c.Call.StaticCallee()
+			if h == nil || !inModule(h) || h.Blocks == nil {
+				return false, false
+			}
+			all, some, n := true, false, 0
+			for _, r := range returnsOf(h) {
+				if idx >= len(r.Results) {
+					continue
+				}
+				n++
+				o, m := wraps(r.Results[idx], depth+1)
+				all, some = all && o, some || m
+			}
+			return all && n > 0, some
+		}
 		for _, fn := range roots {
 			nerr := 0
+			pes := parseErrs(fn, 0)
 			for _, r := range returnsOf(fn) {
 				e := p.shapeOf(r.Results[0])
 				key := fmt.Sprintf("%s returns %s", fnName(fn), e)
+				if e.Kind != "nil" && !(e.Kind == "errorf") {
+					// an error handed on from a helper of the package
+					if ok, may := wraps(r.Results[0], 0); ok {
+						if may {
+							nerr++
+						}
+						out.ok(key, p.pos(r.Instr.Pos()), fnName(fn), "every error the helper returns wraps ErrSQLType")
+						continue
+					}
+				}
 				switch {
 				case e.Kind == "nil":
 					// success must be on the branch where time.Parse's error is nil
 					guarded := false
-					for _, b := range fn.Blocks {
-						for _, ins := range b.Instrs {
-							if c, ok := ins.(*ssa.Call); ok && calleeQualified(&c.Call) == "time.Parse" {
-								if ev := extractOf(c, 1); ev != nil {
-									if isNil, _ := nilFact(factsAt(r.Instr.Block()), ev); isNil {
-										guarded = true
-									}
-								}
-							}
+					for _, ev := range pes {
+						if isNil, _ := nilFact(factsAt(r.Instr.Block()), ev); isNil {
+							guarded = true
 						}
 					}
 					if guarded {
@@ -278,7 +405,7 @@ func init() {
 	register(ruleBCE, ruleUnmarshalErr, rulePanicUnmarshal)
 	addProp(&PropSpec{
 		ID:    "C18",
-		Rules: []string{"R-BCE", "R-PANIC-UNMARSHAL", "R-UNMARSHAL-ERR", "R-LAYOUT", "R-CTXZONE", "R-GLOBALS", "R-WALLCLOCK"},
+		Rules: []string{"R-BCE", "R-PANIC-UNMARSHAL", "R-UNMARSHAL-ERR", "R-LAYOUT", "R-CTXZONE", "R-GLOBALS", "R-WALLCLOCK", "R-OKFLAG"},
 		Explanation: "Totality of UnmarshalJSON on hostile input, decided with the Go compiler's own prove pass as the decision procedure for index safety: " +
 			"every bounds check the compiler cannot discharge in a function reachable from the five UnmarshalJSON methods is a violation; explicit panics are enumerated over the call graph; returned errors wrap ErrSQLType. " +
 			"Only the 'hostile input returns an error instead of panicking' clause of C18 is decided.",
@@ -352,18 +479,79 @@ var ruleLayout = &Rule{
 	Doc: "for each of the five datetime types: String() and MarshalJSON() format with the same layout constant; UnmarshalJSON parses with a layout that accepts that output (zone element -07:00 vs Z07:00 normalised); the ParseTime branch that constructs the type uses a layout that accepts the String() output (fractional seconds are accepted by time.Parse after the seconds field)",
 	Run: func(p *Prog) *RuleOut {
 		out := newOut("R-LAYOUT")
-		layoutArg := func(fn *ssa.Function, callee string, idx int) map[string]bool {
-			res := map[string]bool{}
-			if fn == nil {
-				return res
+		// the layout constants that reach argument idx of the calls of callee
+		// made by fn — or by a helper of package types fn hands the layout to
+		// (`parseQuotedJSON(data, dateFormat)`): a layout that is a parameter of
+		// the helper is looked up at the helper's call
+		var layoutDeep func(fn *ssa.Function, callee string, idx, depth int) (map[string]bool, map[*ssa.Parameter]bool)
+		paramsReaching := func(v ssa.Value) map[*ssa.Parameter]bool {
+			out := map[*ssa.Parameter]bool{}
+			seen := map[ssa.Value]bool{}
+			var walk func(v ssa.Value)
+			walk = func(v ssa.Value) {
+				if v == nil || seen[v] {
+					return
+				}
+				seen[v] = true
+				switch x := v.(type) {
+				case *ssa.Parameter:
+					out[x] = true
+				case *ssa.Phi:
+					for _, e := range x.Edges {
+						walk(e)
+					}
+				case *ssa.ChangeType:
+					walk(x.X)
+				case *ssa.Convert:
+					walk(x.X)
+				}
 			}
-			for _, b := range fn.Blocks {
-				for _, ins := range b.Instrs {
-					if c, ok := ins.(*ssa.Call); ok && calleeQualified(&c.Call) == callee && idx < len(c.Call.Args) {
-						stringConstsReaching(c.Call.Args[idx], map[ssa.Value]bool{}, res)
+			walk(v)
+			return out
+		}
+		layoutDeep = func(fn *ssa.Function, callee string, idx, depth int) (map[string]bool, map[*ssa.Parameter]bool) {
+			res, pending := map[string]bool{}, map[*ssa.Parameter]bool{}
+			if fn == nil || fn.Blocks == nil || depth > 3 {
+				return res, pending
+			}
+			take := func(v ssa.Value) {
+				stringConstsReaching(v, map[ssa.Value]bool{}, res)
+				for q := range paramsReaching(v) {
+					if q.Parent() == fn {
+						pending[q] = true
 					}
 				}
 			}
+			for _, b := range fn.Blocks {
+				for _, ins := range b.Instrs {
+					c, ok := ins.(*ssa.Call)
+					if !ok || c.Call.IsInvoke() {
+						continue
+					}
+					if calleeQualified(&c.Call) == callee && idx < len(c.Call.Args) {
+						take(c.Call.Args[idx])
+						continue
+					}
+					h := c.Call.StaticCallee()
+					if h == nil || h == fn || fnPkgPath(h) != pkgTypes || h.Blocks == nil {
+						continue
+					}
+					hc, hp := layoutDeep(h, callee, idx, depth+1)
+					if len(hp) == 0 {
+						continue // the helper's own constants are its own business
+					}
+					_ = hc
+					for q := range hp {
+						if i := paramIndex(q); i >= 0 && i < len(c.Call.Args) {
+							take(c.Call.Args[i])
+						}
+					}
+				}
+			}
+			return res, pending
+		}
+		layoutArg := func(fn *ssa.Function, callee string, idx int) map[string]bool {
+			res, _ := layoutDeep(fn, callee, idx, 0)
 			return res
 		}
 		// ParseTime: layout → constructed type
